@@ -167,8 +167,11 @@ func c15Selection(rng *rand.Rand, dir string, hostile bool) selection {
 			s.args = append(s.args, "-includeSources", "NoSuchSource")
 			s.invalid = "unknown source"
 		case 3:
-			s.args = append(s.args, "-profile", "no_such_profile")
-			s.invalid = "unknown profile"
+			// no profile ships with the tree, so every value names an unknown profile - also values made of list
+			// separators and blanks only, which a list-minded parser might reduce to "nothing selected"
+			pv := []string{"no_such_profile", ",", ",,", " , ", "no_such_profile,", ",no_such_profile", ";", "*", ".", "a,b", " "}[rng.Intn(11)]
+			s.args = append(s.args, "-profile", pv)
+			s.invalid = "unknown profile " + strconv.Quote(pv)
 		case 4:
 			s.args = append(s.args, "-nameFilter", "e_(unclosed")
 			s.invalid = "bad regular expression"
